@@ -62,9 +62,17 @@ func judge(spec *propSpec, out *evalOutcome) *disagreement {
 		}
 	}
 	if c.Go.Outcome != "done" {
-		// panics/crashes are C01's and C10's (their predicates above); other properties do not
-		// compare a result that does not exist
-		return nil
+		// the real code did not return from this evaluation (panic, crash, hang) or used an option
+		// that a later one overrides: there is nothing to compare the model's observation with, and
+		// the model does evaluate this input — the correspondence is broken for every property
+		// whose stream contains the case, not only for C01
+		msg := c.Go.Panic
+		if len(msg) > 300 {
+			msg = msg[:300]
+		}
+		return &disagreement{Property: spec.id, Kind: "correspondence",
+			Message: "the real code did not complete the evaluation (" + c.Go.Outcome + ": " + msg + ") where the model evaluates normally",
+			GoProj: c.Go.Outcome, ModProj: out.model.Outcome, Case: c, Model: out.model}
 	}
 	gp, mp := spec.proj(c.Go), spec.proj(out.model)
 	if canon(gp) != canon(mp) {
